@@ -26,7 +26,7 @@ RULE = (
     "cases = templates with k in 1..4 non-collateral blocks whose queries overlap (same party, same assets, "
     "overlapping refs; occasionally two blocks with one name; block names on both sides of `collateral` in the name "
     "order the resolver follows) plus optional collateral, over random stores of 1..7 "
-    "UTxOs, resolved by the real inputs::resolve and compiled; observed: selection per block and body.inputs. "
+    "UTxOs, resolved by the real inputs::resolve and compiled; observed: selection per block and body.inputs; named blocks (two ordinary blocks after the same plain UTxOs, one of them under a name built from a string literal of the crates' own source - as it is, as prefix, as suffix: common::magic_names); outputs of one transaction at indices congruent modulo 2^8 and 2^16, one block each; the independent blocks of C03. "
     "Non-trivial = non-empty store and a constrained query; distinct = distinct (store, queries)"
 )
 
